@@ -423,7 +423,7 @@ Definition name_ok (valid : str -> bool) (s : str) : bool := cell_ok s && scalar
 Definition names_textual (valid : str -> bool) (l : names) : bool :=
   forallb (fun o => match o with Some s => name_ok valid s | None => true end) l.
 (* descriptors are not validated by the reader (FieldDescriptor::check_valid accepts everything) *)
-Definition desc_ok (s : str) : bool := no_tab_lf s && scalar_only s.
+Definition desc_ok (s : str) : bool := cell_ok s && scalar_only s.
 
 Definition textual_param (p : param) : bool :=
   N.ltb (p_index p) usize_max1 && names_textual is_valid_unqualified_name (p_names p).
